@@ -178,10 +178,12 @@ Print Assumptions fold_sound.
 
    emit_correct: for every buffer, match lists, rule verdicts and well-typed
    external variables, the code emitted for a condition of the fragment
-   (everything [tyof] types: arithmetic with the guards of << >> \ %,
+   ([Emit.frag1], structural, and well-typed by [tyof]: arithmetic with the guards of << >> \ %,
    comparisons, not / n-ary and / or / defined, uintN, $a [at|in], #a [in],
    @a[i], !a[i], external variables, rule references, with, any / all / N of
-   <set>, and for <none|any|all|N> x in (lo..hi) with nested loops), started in
+   <set>, and for <none|any|all|N> x in (lo..hi) with nested loops; not: what
+   is emitted through emit_switch and percentages, whose code is compared
+   with the emitted WebAssembly only), started in
    any state whose filesize global holds the buffer's size - the variable area
    may contain ANYTHING, e.g. what other rules or earlier loops left in the
    slots this condition is going to use - terminates normally with exactly the
@@ -200,7 +202,7 @@ Print Assumptions fold_sound.
 Theorem emit_correct : forall data pm rules globals,
   (forall k t, global_ty k = Some t -> types_as t (globals k)) ->
   forall e st,
-    tyof [] 0 e = Some TBool -> start_ok data st ->
+    frag1 e = true -> tyof [] 0 e = Some TBool -> start_ok data st ->
     exists st', bstep (host_spec data pm rules globals) (emit_condition e) st (ONormal st') /\
                 s_stack st' = V32 (b2z (holds (env_of data pm rules globals []) e)) :: s_stack st.
 Proof. exact EmitProofs.emit_correct. Qed.
@@ -210,7 +212,7 @@ Print Assumptions emit_correct.
    sufficient amount of fuel *)
 Theorem run_condition_correct : forall data pm rules globals,
   (forall k t, global_ty k = Some t -> types_as t (globals k)) ->
-  forall e, tyof [] 0 e = Some TBool ->
+  forall e, frag1 e = true -> tyof [] 0 e = Some TBool ->
     exists N, forall fuel, (N <= fuel)%nat ->
       run_condition data pm rules globals fuel e = Some (holds (env_of data pm rules globals []) e).
 Proof. exact EmitProofs.run_condition_correct. Qed.
@@ -221,7 +223,7 @@ Print Assumptions run_condition_correct.
 Theorem emit_no_trap : forall data pm rules globals,
   (forall k t, global_ty k = Some t -> types_as t (globals k)) ->
   forall e st o,
-    tyof [] 0 e = Some TBool -> start_ok data st ->
+    frag1 e = true -> tyof [] 0 e = Some TBool -> start_ok data st ->
     bstep (host_spec data pm rules globals) (emit_condition e) st o -> exists st', o = ONormal st'.
 Proof. exact EmitProofs.emit_no_trap. Qed.
 Print Assumptions emit_no_trap.
@@ -232,7 +234,7 @@ Print Assumptions emit_no_trap.
 Theorem vars_written_before_read : forall data pm rules globals,
   (forall k t, global_ty k = Some t -> types_as t (globals k)) ->
   forall e st1 st2 o1 o2,
-    tyof [] 0 e = Some TBool -> start_ok data st1 -> start_ok data st2 ->
+    frag1 e = true -> tyof [] 0 e = Some TBool -> start_ok data st1 -> start_ok data st2 ->
     s_stack st1 = [] -> s_stack st2 = [] ->
     bstep (host_spec data pm rules globals) (emit_condition e) st1 o1 ->
     bstep (host_spec data pm rules globals) (emit_condition e) st2 o2 ->
@@ -242,7 +244,7 @@ Print Assumptions vars_written_before_read.
 
 (* one loop, compositionally: given the theorem for its parts *)
 Theorem for_range_correct : forall data pm rules globals qk q x lo hi body,
-    (qk = QExpr -> Ok data pm rules globals q) -> Ok data pm rules globals lo -> Ok data pm rules globals hi ->
+    qk <> QPct -> (qk = QExpr -> Ok data pm rules globals q) -> Ok data pm rules globals lo -> Ok data pm rules globals hi ->
     Ok data pm rules globals body -> Ok data pm rules globals (EForRange qk q x lo hi body).
 Proof. exact EmitProofs.for_range_ok. Qed.
 Print Assumptions for_range_correct.
